@@ -161,6 +161,15 @@ def enumerated_batches(ctx, res, per=30):
         # a seed-dependent systematic sample (every document is reached over the seeds)
         step = -(-total // keep)
         cases = [c for i, c in enumerate(cases) if i % step == ctx.seed % step]
+    if not ctx.quick:
+        # beyond the exhaustive bound: random walks of the same builder (TLC simulation mode) up to 6 selection nodes
+        sim = vlib.tlc("Gen_C01", "Gen_C01_sim.cfg", workdir=ctx.work, workers=1, timeout=1800, xmx="4g", simulate="num=6000", ok_rcs=(0,))
+        seen = set()
+        for c in sim.tagged("CASE"):
+            k = json.dumps(c, sort_keys=True)
+            if len(c["nodes"]) >= 4 and k not in seen:
+                seen.add(k)
+                cases.append(c)
     docs = [doc_of_nodes(c["nodes"]) for c in cases]
     cfg = {"schema": "./schema/*.graphql", "documents": "./ops/*.graphql", "extensions": {"nitrogql": {"generate": {"schemaOutput": "./gen/schema.d.ts"}}}}
     out = []
